@@ -181,4 +181,154 @@ def massage (s : String) : String := String.ofList (s.toList.map fun c => if c =
 
 def enumNames (cat : List CEntry) : List String := cat.map fun c => massage c.type ++ "_" ++ massage c.model
 
+/-! ### the model named through the combined type-model enumeration (`model_type=`)
+
+`generate_component(model_type=m)` takes `Model` and `Type` from the member's catalogue entry and then runs the same body; the
+per-type rules it applies on that path are probed separately by the translator (`typeTableM`), so a body that consults the
+`ctype` PARAMETER (None on this path) instead of the entry's type is mirrored here, not assumed away. -/
+
+def rowOfT (tbl : List TypeRow) (type : String) : TypeRow :=
+  match tbl.find? (fun r => r.type == type) with
+  | some r => r
+  | none => { type := type, suffix := "", nsType := "", kind := "", speed := true }
+
+def genIfacesT (tbl : List TypeRow) (e : CEntry) (name : String) (ids : Option (List String)) (labels : Option (List Bdf)) :
+    List GIface :=
+  e.ifaces.zipIdx.map fun (p, i) =>
+    let b : Bdf := match labels with
+      | some ls => ls.getD i .none
+      | none => .none
+    { name := name ++ ifaceSep ++ p.1
+      kind := (rowOfT tbl e.type).kind
+      bw := if (rowOfT tbl e.type).speed then p.2 else 0
+      units := unitsOf b
+      nodeId := match ids with
+        | some l => l[i]?
+        | none => none
+      localNames := match b with
+        | .list n => List.replicate n p.1
+        | _ => [p.1]
+      localIsList := match b with
+        | .list _ => true
+        | _ => false
+      labelIdx := match labels with
+        | some _ => some i
+        | none => none }
+
+def mkT (tbl : List TypeRow) (name : String) (nsId parent : Option String) (e : CEntry) (ids : Option (List String))
+    (labels : Option (List Bdf)) : GComp :=
+  let row := rowOfT tbl e.type
+  { model := e.model, type := e.type, details := e.details
+    nsName := some (svcName parent name row.suffix)
+    nsType := some row.nsType
+    nsId := nsId
+    ifaces := genIfacesT tbl e name ids labels }
+
+/-- `generate` with the per-type table as a parameter -/
+def generateT (tbl : List TypeRow) (cat : List CEntry) (name model type : String) (nsId : Option String)
+    (ids : Option (List String)) (labels : Option (List Bdf)) (parent : Option String) : Except GErr GComp :=
+  match lookup cat model type with
+  | none => .error .notFound
+  | some e =>
+    if !e.hasIfaces then
+      .ok { model := e.model, type := e.type, details := e.details, nsName := none, nsType := none, nsId := none, ifaces := [] }
+    else
+      let n := e.ifaces.length
+      match ids, labels with
+      | some l, none => if l.length != n then .error .runtime else .error .type
+      | some l, some ls =>
+        if l.length != n then .error .runtime
+        else if ls.length != n then .error .runtime
+        else .ok (mkT tbl name nsId parent e (some l) (some ls))
+      | none, some ls => if ls.length < n then .error .index else .ok (mkT tbl name nsId parent e none (some ls))
+      | none, none => .ok (mkT tbl name nsId parent e none none)
+
+def enumName (c : CEntry) : String := massage c.type ++ "_" ++ massage c.model
+
+/-- `ComponentModelTypeMap[ComponentModelType[member]]` -/
+def memberEntry (cat : List CEntry) (member : String) : Option CEntry := cat.find? (fun c => enumName c == member)
+
+/-- `generate_component(name=…, model_type=<member>, …)`; `none` = no such member (the caller cannot even name it) -/
+def generateM (cat : List CEntry) (name member : String) (nsId : Option String)
+    (ids : Option (List String)) (labels : Option (List Bdf)) (parent : Option String) : Option (Except GErr GComp) :=
+  (memberEntry cat member).map fun e => generateT typeTableM cat name e.model e.type nsId ids labels parent
+
+/-! ### consumers of catalogue objects
+
+`get_instance_capacities` / `list_instances()[name]` hand out the catalogue's own `Capacities` objects.  A consumer session binds
+handles to such objects or to objects of its own, totals them up (`x += y`, `x -= y`, `z = x + y`, `z = x - y`,
+`z = Capacities.update(x)`), compares / prints them, writes into objects it owns, and in between asks the catalogue.  Whether an
+operation writes through to a catalogue object is the translator's `consumerWrites` (probed); with the class as it is (`+=` falls
+back to `__add__` and rebinds) nothing does. -/
+
+inductive Ref where
+  | cat (n : String)      -- the catalogue's object for that name
+  | own (s : Size)        -- an object of the consumer
+deriving DecidableEq, Repr
+
+structure CState where
+  cat : List (String × Size)
+  env : List (Nat × Ref)
+
+inductive COp where
+  | get (h : Nat) (n : String)
+  | fresh (h : Nat) (s : Size)
+  | aug (add : Bool) (h h2 : Nat)              -- h += h2 / h -= h2
+  | bin (op : String) (h3 h h2 : Nat)          -- h3 = h + h2 | h - h2 | update(h)
+  | use (op : String) (h h2 : Nat)             -- comparisons, printing, FreeCapacity …
+  | scribble (h : Nat)                         -- the consumer writes into an object it owns
+  | query (n : String)
+  | pick (s : Size)
+  | pickh (h : Nat)
+deriving Repr
+
+inductive COut where
+  | caps (s : Option Size)
+  | name (n : Option String)
+deriving DecidableEq, Repr
+
+def CState.val (st : CState) (h : Nat) : Size :=
+  match st.env.lookup h with
+  | some (.cat n) => (capsOf st.cat n).getD ⟨0, 0, 0⟩
+  | some (.own s) => s
+  | none => ⟨0, 0, 0⟩
+
+def arith (add : Bool) (a b : Size) : Size :=
+  if add then ⟨a.core + b.core, a.ram + b.ram, a.disk + b.disk⟩ else ⟨a.core - b.core, a.ram - b.ram, a.disk - b.disk⟩
+
+def setCat (cat : List (String × Size)) (n : String) (v : Size) : List (String × Size) :=
+  cat.map fun e => if e.1 == n then (e.1, v) else e
+
+def writes (op : String) : Bool := consumerWrites.contains op
+
+def cstep (st : CState) : COp → CState × Option COut
+  | .get h n => ({ st with env := (h, .cat n) :: st.env }, none)
+  | .fresh h s => ({ st with env := (h, .own s) :: st.env }, none)
+  | .aug add h h2 =>
+    let v := arith add (st.val h) (st.val h2)
+    if writes (if add then "iadd" else "isub") then
+      match st.env.lookup h with
+      | some (.cat n) => ({ st with cat := setCat st.cat n v }, none)
+      | _ => ({ st with env := (h, .own v) :: st.env }, none)
+    else ({ st with env := (h, .own v) :: st.env }, none)
+  | .bin op h3 h h2 =>
+    let v := if op == "add" then arith true (st.val h) (st.val h2) else if op == "sub" then arith false (st.val h) (st.val h2) else st.val h
+    ({ st with env := (h3, .own v) :: st.env }, none)
+  | .use _ _ _ => (st, none)
+  | .scribble h =>
+    match st.env.lookup h with
+    | some (.own _) => ({ st with env := (h, .own ⟨7, 7, 7⟩) :: st.env }, none)
+    | _ => (st, none)
+  | .query n => (st, some (.caps (capsOf st.cat n)))
+  | .pick s => (st, some (.name (pick st.cat s)))
+  | .pickh h => (st, some (.name (pick st.cat (st.val h))))
+
+/-- a session: final state and the catalogue's answers in order -/
+def crun (st : CState) : List COp → CState × List COut
+  | [] => (st, [])
+  | op :: rest =>
+    let (st', o) := cstep st op
+    let (st'', os) := crun st' rest
+    (st'', match o with | some x => x :: os | none => os)
+
 end FimVerif.Catalog
